@@ -27,6 +27,7 @@ use super::runner::Runner;
 use super::subprocess_runner::SubprocessRunner;
 use crate::config::OutputStreamControl;
 use crate::config::TestCaseConfig;
+use crate::escaping::strip_colors_bytes;
 use crate::lossy_string;
 use crate::newline::BytesNewline;
 use crate::newline::SplitLinesByNewline;
@@ -79,7 +80,21 @@ impl Executor for BashScriptExecutor {
         testcases: &[&TestCase],
         context: &ExecutionContext,
     ) -> Result<Vec<Output>> {
-        let testcase = compile_testcase(testcases, context)?;
+        let mut testcase = compile_testcase(testcases, context)?;
+
+        // escape sequences are removed from the output of each test case, not from the
+        // output of the whole script: a sequence that is cut off at the end of an output
+        // would take the start of the divider with it
+        let strip_ansi_escaping = testcase.config.strip_ansi_escaping.take() == Some(true);
+        let strip = |stream: &OutputStream| -> Result<OutputStream> {
+            if !strip_ansi_escaping {
+                return Ok(stream.clone());
+            }
+            let bytes: &[u8] = stream.into();
+            strip_colors_bytes(bytes)
+                .map(|stripped| stripped.into())
+                .map_err(|err| ExecutionError::aborted(err, None))
+        };
         let runner = SubprocessRunner(self.0.to_owned());
         let output = runner
             .run("script", &testcase, context)
@@ -94,8 +109,8 @@ impl Executor for BashScriptExecutor {
                     ExecutionTimeout::Total,
                     vec![Output {
                         exit_code: output.exit_code,
-                        stderr: remove_dividers_from_output(&output.stderr),
-                        stdout: remove_dividers_from_output(&output.stdout),
+                        stderr: strip(&remove_dividers_from_output(&output.stderr))?,
+                        stdout: strip(&remove_dividers_from_output(&output.stdout))?,
                     }],
                 ));
             }
@@ -162,6 +177,11 @@ impl Executor for BashScriptExecutor {
                     Ok(())
                 },
             )?;
+        }
+
+        for output in outputs.iter_mut() {
+            output.stdout = strip(&output.stdout)?;
+            output.stderr = strip(&output.stderr)?;
         }
 
         Ok(outputs)
